@@ -43,6 +43,7 @@ def plan(tier, seed):
 def mandatory(tier):
     out = [f"steps/{k}" for k in STEPS]
     out += ["ac/True", "ac/False", "dtype/float32", "dtype/float64", "D/2", "D/3", "ExpFlow", "SVF", "SVF/steps=0", "SVFFD", "smooth", "batch>1"]
+    out += [f"FlowFields.exp/{a}/grid_flag={g}" for g in (True, False) for a in ("cube", "world", "grid", "cube_corners")]
     return out
 
 
@@ -138,6 +139,37 @@ def run_item(ctx, item):
         ctx.close("ExpFlow_unchanged_by_inverse", mod(v), ref, tol, key="ExpFlow/closed_form", steps=k, scale=s, **info)
         dflt = ExpFlow()
         ctx.true("ExpFlow_defaults", dflt.scale == 1.0 and dflt.steps == 5 and dflt.align_corners is True, key="ExpFlow/defaults")
+    # ---- data-class wrapper: FlowFields.exp() of the same field given in other vector representations, on grids
+    #      carrying either flag; the exponential is taken in the cube convention the axes imply (corners only for
+    #      CUBE_CORNERS), so WORLD / GRID / CUBE inputs are closed-form cases when the hull of convention False is invariant
+    with ctx.guard("FlowFields.exp", key="exc/FlowFields.exp", **info):
+        from deepali.core.grid import Axes
+        from deepali.data.flow import FlowFields
+        from .. import gen
+        from ..oracle.coords import CORNERS, CUBE, GRID, WORLD
+
+        k = int(rng.integers(0, 7))
+        own = CORNERS if ac else CUBE
+        ref = np.stack([F.affine_field(F.exp_squaring(H, b, k), x) for H, b in gens])
+        for gac in (True, False):
+            sp = tuple(float(q) for q in rng.uniform(0.5, 2.0, size=D))
+            grid = Grid(shape=shape, spacing=sp, align_corners=gac)
+            rg = gen.ref_of_grid(grid)
+
+            def conv(arr, a, b_):
+                return np.moveaxis(rg.vectors(np.moveaxis(arr, 1, -1), a, b_), -1, 1)
+
+            for a in ([own] if ac else [CUBE, WORLD, GRID]):
+                ff = FlowFields(torch.tensor(conv(v_np, own, a), dtype=dtype), grid, Axes(a))
+                out = ff.exp(steps=k)
+                ok = ctx.true("FlowFields_exp_keeps_axes_and_grid", isinstance(out, FlowFields) and out.axes() is Axes(a) and out.grid() == grid and out.grid().align_corners() == gac, key="FlowFields.exp/attrs", axes=a, grid_flag=gac, **info)
+                if ok:
+                    scale_a = float(np.abs(conv(np.ones_like(v_np), own, a)).max())
+                    want = conv(ref, own, a)
+                    # vectors given in world / grid units are converted with the grid's float32 attributes (2 conversions)
+                    t_a = tol * scale_a * 4 if a == own else max(tol * scale_a * 4, 2e-6 * (float(np.abs(want).max()) + float(np.abs(conv(v_np, own, a)).max())))
+                    ctx.close("FlowFields_exp_vs_matrix_power", out.tensor(), want, t_a, key="FlowFields.exp/closed_form", axes=a, grid_flag=gac, steps=k, **info)
+                ctx.bucket(f"FlowFields.exp/{a}/grid_flag={gac}")
     # ---- transforms' displacement buffers
     with ctx.guard("SVF", **info):
         from deepali.spatial import StationaryVelocityFieldTransform
